@@ -142,12 +142,12 @@ namespace FilterEffect
 theorem version_tight : Tight (checked (rec [U 4]) (fun r => r.int 0 ≤ 1) .assertionError) := checked_tight (rec_tight _)
 
 theorem rt : codec.RtAtEnd :=
-  seq_rt_end (pascal_rt 1) (pascal_tight 1 1) (seq_rt_end (checked_rt (rec_rt _ rfl)) version_tight
+  seq_rt_end (checked_rt (pascal_rt 1)) (checked_tight (pascal_tight 1 1)) (seq_rt_end (checked_rt (rec_rt _ rfl)) version_tight
     (seq_rt_end (blocked_rt 8 1 FEBody.rt.atEnd FEBody.tight (by decide)) (blocked_tight 8 1)
       (optTail_rt FEExtra.rt.atEnd FEExtra.tight FEExtra.ge)))
 
 theorem count : codec.Count :=
-  seq_count (pascal_count 1 1) (seq_count (checked_count (rec_count _))
+  seq_count (checked_count (pascal_count 1 1)) (seq_count (checked_count (rec_count _))
     (seq_count (blocked_count 8 1 FEBody.count) (optTail_count FEExtra.count)))
 
 theorem tight : Tight codec := seq_tight (seq_tight (seq_tight (fun _ _ => rfl)))
